@@ -42,6 +42,7 @@ type engine struct {
 	noIfConv           bool
 	querylog           string
 	slots              chan struct{}
+	selftest           string
 }
 
 // loadProgram loads /repo packages with the harness overlay.
@@ -500,6 +501,71 @@ func (e *engine) runObligation(fn *ssa.Function, maxPaths int) *obligationResult
 		}(w)
 	}
 	wg.Wait()
+	if !stopped {
+		for _, id := range e.declaredReachIDs(fn) {
+			if res.ReachCount[id] == 0 {
+				res.Incon = append(res.Incon, fmt.Sprintf("vacuity: reach point %q was never reached with a satisfiable path condition", id))
+			}
+		}
+	}
 	res.Wall = time.Since(t0)
 	return res
+}
+
+// declaredReachIDs statically collects the constant ids passed to verifReach in
+// the harness function and the harness-file functions it calls: every one of
+// them must be reached (with a satisfiable path condition) on at least one path.
+func (e *engine) declaredReachIDs(fn *ssa.Function) []string {
+	seen := map[*ssa.Function]bool{}
+	ids := map[string]bool{}
+	var walk func(f *ssa.Function)
+	walk = func(f *ssa.Function) {
+		if f == nil || seen[f] || f.Blocks == nil {
+			return
+		}
+		seen[f] = true
+		pos := e.prog.Fset.Position(f.Pos())
+		if f != fn && !strings.Contains(filepath.Base(pos.Filename), "zz_verif") {
+			return
+		}
+		for _, b := range f.Blocks {
+			for _, in := range b.Instrs {
+				var cc *ssa.CallCommon
+				switch c := in.(type) {
+				case *ssa.Call:
+					cc = &c.Call
+				case *ssa.Defer:
+					cc = &c.Call
+				case *ssa.Go:
+					cc = &c.Call
+				case *ssa.MakeClosure:
+					if cf, ok := c.Fn.(*ssa.Function); ok {
+						walk(cf)
+					}
+				}
+				if cc == nil {
+					continue
+				}
+				if callee, ok := cc.Value.(*ssa.Function); ok {
+					if callee.Name() == "verifReach" && len(cc.Args) == 1 {
+						if k, ok := cc.Args[0].(*ssa.Const); ok && k.Value != nil {
+							ids[strings.Trim(k.Value.ExactString(), "\"")] = true
+						}
+					} else {
+						walk(callee)
+					}
+				}
+			}
+		}
+		for _, af := range f.AnonFuncs {
+			walk(af)
+		}
+	}
+	walk(fn)
+	var out []string
+	for id := range ids {
+		out = append(out, id)
+	}
+	sort.Strings(out)
+	return out
 }
